@@ -7,6 +7,7 @@ R2  composite classes delegate to the same ordered list of bases in both functio
 R3  write_traj_files: a data line is written exactly when step % frequency == 0; the pending-label
     request is cleared only where a label line is written, which is also an output step
 """
+import re
 from . import expr as X
 from . import cond as C
 from .facts import AnalysisBroken
@@ -104,7 +105,8 @@ def column_sequence(F, f):
         else:
             r = X.receiver(n)
             target = n.get("cq", "").rsplit("::", 1)[0]
-            recv = "this" if (r is None or X.strip(r)["k"] == "CXXThisExpr") else X.re_strip(X.key(r, f, res))
+            # locals are identified by role (what they iterate over is in the loop key), not by name
+            recv = "this" if (r is None or X.strip(r)["k"] == "CXXThisExpr") else X.re_strip(re.sub(r"\b[A-Za-z_]\w*#\d+", "_", X.key(r, f, res)))
             seq.append(("call", g, lk, "%s on %s" % (target, recv)))
     return seq
 
